@@ -24,7 +24,7 @@ func init() { core.Register(c20{}) }
 func (c20) ID() string    { return "C20" }
 func (c20) Level() string { return "fault_enumeration" }
 func (c20) Rule() string {
-	return "each scenario runs in a fresh tree base/{up/src, up/secret.txt, other/, dst}: a .dsc or .changes in up/src listing k=0..5 files. Operation in {Copy, Move, Remove} x handle in {.dsc, .changes} x fault: none; referenced file i missing (every i); destination name of file i occupied by a non-empty directory (every i and the control file itself); destination missing; destination a regular file; the copy of the control file itself cut short by a file-size limit (RLIMIT_FSIZE, EFBIG mid-way). Hostile listed names: ../secret.txt, sub/../../secret.txt, ../../other/o.txt, /abs/x, sub/inner.txt, mixed with plain names. Monitors: the kernel's ordered inotify queue of dst and src (control file appears only after every referenced file's close/move; deleted last), tree snapshots path->sha256 before/after (success: byte-identical files, handle points at the new location; failure: error returned, no control file in dst, for Move still at its source; always: everything outside up/src and dst unchanged, nothing in dst carries an outside file's content). Non-trivial = every scenario with k >= 1 or a fault; distinct by hash of the scenario."
+	return "each scenario runs in a fresh tree base/{up/src, up/secret.txt, other/, dst}: a .dsc or .changes in up/src listing k=0..5 files. Operation in {Copy, Move, Remove} x handle in {.dsc, .changes} x fault: none; referenced file i missing (every i); destination name of file i occupied by a non-empty directory (every i and the control file itself); destination missing; destination a regular file; the copy of the control file itself cut short by a file-size limit (RLIMIT_FSIZE, EFBIG mid-way). Hostile listed names: ../secret.txt, sub/../../secret.txt, ../../other/o.txt, /abs/x, sub/inner.txt, and the directory-designating ../, ..//, ./, /, sub/, ../../other/, sub/.., mixed with plain names. Monitors: the kernel's ordered inotify queue of dst and src (control file appears only after every referenced file's close/move; deleted last), tree snapshots path->sha256 before/after (success: byte-identical files, handle points at the new location; failure: error returned, no control file in dst, for Move still at its source; always: everything outside up/src and dst unchanged, nothing in dst carries an outside file's content). Non-trivial = every scenario with k >= 1 or a fault; distinct by hash of the scenario."
 }
 func (c20) Assumptions() []string {
 	return []string{"Linux inotify event order = order of appearance for a directory watcher", "RLIMIT_FSIZE makes write/copy_file_range fail with EFBIG exactly as a full disk would with ENOSPC"}
@@ -58,7 +58,7 @@ func (c20) Mandatory(tier string) []string {
 		m = append(m, "strace:syscalls-observed", "strace:dry-run:Copy", "strace:dry-run:Move", "strace:dry-run:Remove", "strace:injected:Copy", "strace:injected:Move", "strace:injected:Remove")
 	}
 	return append(m, "fault:Copy:control-copy-cut-short", "fault:Remove:missing-source", "k:0", "k:1", "k:2+", "order:copy-control-after-all-closed", "order:move-control-last",
-		"order:remove-control-last", "hostile:../secret.txt", "hostile:sub/../../secret.txt", "hostile:../../other/o.txt", "hostile:/abs/x", "hostile:sub/inner.txt", "inotify-events-seen", "dest-has-longer-files-of-the-same-names", "hostile:only-in-checksum-fields", "sequence:Copy then Remove", "sequence:Copy then Move", "sequence:Move then Remove", "sequence:Move then Move")
+		"order:remove-control-last", "hostile:../secret.txt", "hostile:sub/../../secret.txt", "hostile:../../other/o.txt", "hostile:/abs/x", "hostile:sub/inner.txt", "hostile:../", "hostile:..//", "hostile:./", "hostile:/", "hostile:sub/", "hostile:../../other/", "hostile:sub/..", "inotify-events-seen", "dest-has-longer-files-of-the-same-names", "hostile:only-in-checksum-fields", "sequence:Copy then Remove", "sequence:Copy then Move", "sequence:Move then Remove", "sequence:Move then Move")
 }
 
 type c20Case struct {
@@ -293,7 +293,7 @@ func (p c20) run(c *core.C, t *core.T, cs c20Case) {
 				outsideHashes[h] = rel
 			}
 			if after[rel] != h {
-				c.Failf("%s(%s) changed %q outside the control file's directory and the destination: %s -> %q (listed names %q, fault %s)", cs.Op, cs.Handle, rel, h[:8], after[rel], cs.Names, cs.Fault)
+				c.Failf("%s(%s) changed %q outside the control file's directory and the destination: %.12s -> %.12q (listed names %q, fault %s)", cs.Op, cs.Handle, rel, h, after[rel], cs.Names, cs.Fault)
 			}
 		}
 	}
@@ -519,7 +519,7 @@ func maskName(m uint32) string {
 	return strings.Join(s, "|")
 }
 
-var c20Hostile = []string{"../secret.txt", "sub/../../secret.txt", "../../other/o.txt", "/abs/x", "sub/inner.txt"}
+var c20Hostile = []string{"../secret.txt", "sub/../../secret.txt", "../../other/o.txt", "/abs/x", "sub/inner.txt", "../", "..//", "./", "/", "sub/", "../../other/", "sub/.."}
 
 func plainNames(r *core.Rand, k int) []string {
 	pool := []string{"pkg_1.0.orig.tar.gz", "pkg_1.0-1.debian.tar.xz", "pkg_1.0-1_amd64.deb", "pkg_1.0-1.dsc.asc", "pkg-doc_1.0-1_all.deb", "pkg_1.0-1_amd64.buildinfo"}
